@@ -638,6 +638,9 @@ class OverlapStream(Stream):
 
 # --------------------------------------------------------------------------
 
+# the class of each cookie kind of the rig under its fixed clock (what the property says about it)
+COOKIE_CLASS = {"valid": "valid", "edge-valid": "valid", "edge-expired": "expired", "expired": "expired", "wronghash": "wronghash", "malformed": "malformed",
+                "badts": "malformed", "empty": "malformed", "absent": "absent"}
 SECRET_VARIANTS = ["right", "wrong", "absent", "prefix", "longer", "upper", "empty"]
 DEBUGGER_VARIANTS = ["yes", "yes", "yes", "YES", "no", "1", ""]
 
@@ -656,6 +659,13 @@ class GateStream(Stream):
         {"cmd": "pinauth-right", "secret": "right", "host": hs("localhost"), "cookie": "absent", "frame": "known", "evalex": True, "pin": True, "dbg": "yes", "pre": 300},
         {"cmd": "printpin", "secret": "wrong", "host": hs("localhost"), "cookie": "absent", "frame": "known", "evalex": True, "pin": True, "dbg": "yes", "pre": 0},
         {"cmd": "printpin", "secret": "right", "host": "~", "cookie": "absent", "frame": "known", "evalex": False, "pin": True, "dbg": "yes", "pre": 0},
+        {"cmd": "eval", "secret": "right", "host": hs("localhost"), "cookie": "valid", "frame": "missing", "evalex": True, "pin": True, "dbg": "yes", "pre": 0},
+        {"cmd": "eval", "secret": "right", "host": hs("localhost"), "cookie": "valid", "frame": "nonint", "evalex": True, "pin": False, "dbg": "yes", "pre": 0},
+        {"cmd": "eval", "secret": "right", "host": hs("localhost"), "cookie": "edge-valid", "frame": "known", "evalex": True, "pin": True, "dbg": "yes", "pre": 0},
+        {"cmd": "eval", "secret": "right", "host": hs("localhost"), "cookie": "edge-expired", "frame": "known", "evalex": True, "pin": True, "dbg": "yes", "pre": 0},
+        {"cmd": "eval", "secret": "upper", "host": hs("localhost"), "cookie": "valid", "frame": "known", "evalex": True, "pin": True, "dbg": "yes", "pre": 0},
+        {"cmd": "pinauth-wrong", "secret": "right", "host": hs("localhost"), "cookie": "badts", "frame": "known", "evalex": True, "pin": True, "dbg": "yes", "pre": 0},
+        {"cmd": "pinauth-wrong", "secret": "right", "host": hs("localhost"), "cookie": "empty", "frame": "missing", "evalex": False, "pin": True, "dbg": "yes", "pre": 0},
     ]
 
     def cases(self, rng, tier):
@@ -673,8 +683,8 @@ class GateStream(Stream):
                 "cmd": lambda: rng.choice(g.CMDS),
                 "secret": lambda: rng.choice(SECRET_VARIANTS[:3] if rng.random() < 0.7 else SECRET_VARIANTS),
                 "host": lambda: opt(hs, rnd_host()),
-                "cookie": lambda: rng.choice(g.COOKIES),
-                "frame": lambda: rng.choice(g.FRAMES),
+                "cookie": lambda: rng.choice(g.W_COOKIES + ["expired"]),
+                "frame": lambda: rng.choice(g.W_FRAMES),
                 "evalex": lambda: rng.random() < 0.6,
                 "pin": lambda: rng.random() < 0.6,
                 "dbg": lambda: rng.choice(DEBUGGER_VARIANTS),
@@ -713,6 +723,7 @@ class GateStream(Stream):
     def _run_uncached(self, case):
         g = gen_mod()
         rig = g.Rig(case["evalex"], case["pin"])
+        rig.clock = g.W_CLOCK  # a fixed clock: the edge-of-PIN_TIME cookies are deterministic
         host = None if case["host"] == "~" else unhs(case["host"])
         # failures that happened before this request
         for _ in range(case["pre"] if case["pin"] else 0):
@@ -753,7 +764,7 @@ class GateStream(Stream):
             secret = "absent"
         return line(
             "dbg.dispatch", b01(case["evalex"]), b01(case["pin"]), before, b01(in_dbg and case["dbg"] == "yes"), mcmd, b01(cmd == "resource"), secret,
-            b01(case["frame"] == "known"), b01(trusted), case["cookie"], b01(cmd == "pinauth-right"), b01(cmd == "console"),
+            b01(case["frame"] == "known"), b01(trusted), COOKIE_CLASS[case["cookie"]], b01(cmd == "pinauth-right"), b01(cmd == "console"),
         )
 
     def canon_model(self, case, out):
@@ -768,7 +779,7 @@ class GateStream(Stream):
         host = None if case["host"] == "~" else unhs(case["host"])
         host_ok = spec_trusted(host, [".localhost", "127.0.0.1"]) is not False
         secret_ok = case["secret"] == "right"
-        pin_ok = (not case["pin"]) or case["cookie"] == "valid"
+        pin_ok = (not case["pin"]) or COOKIE_CLASS[case["cookie"]] == "valid"
         if code == g.OUT_ODD:
             if res.get("exc"):
                 return f"the debugger raised {res['exc']} instead of answering or refusing with SecurityError"
@@ -783,7 +794,7 @@ class GateStream(Stream):
             return "printpin answered without a trusted Host and the secret"
         if res["logs"] and not (host_ok and secret_ok):
             return "the PIN was logged for a request without a trusted Host and the secret"
-        if g.OUT_PINAUTH <= code <= g.OUT_PINAUTH + 3 and case["pin"] and case["pre"] > 10 and case["cookie"] != "valid":
+        if g.OUT_PINAUTH <= code <= g.OUT_PINAUTH + 3 and case["pin"] and case["pre"] > 10 and COOKIE_CLASS[case["cookie"]] != "valid":
             auth = (code - g.OUT_PINAUTH) // 2
             if auth:
                 return f"PIN accepted after {case['pre']} failed attempts"
@@ -799,7 +810,7 @@ class GateStream(Stream):
 
     def mutate(self, case, rng):
         g = gen_mod()
-        for k, vals in (("secret", SECRET_VARIANTS), ("cookie", g.COOKIES), ("frame", g.FRAMES), ("evalex", [True, False]), ("pin", [True, False])):
+        for k, vals in (("secret", SECRET_VARIANTS), ("cookie", g.W_COOKIES), ("frame", g.W_FRAMES), ("evalex", [True, False]), ("pin", [True, False])):
             for v in vals:
                 if case[k] != v:
                     c = dict(case)
@@ -926,7 +937,7 @@ class PinCookieStream(Stream):
 
 CHECK = Check(
     prop="C20",
-    gen=["Debugger", "PyFns_Host", "PyFns_Debug"],
+    gen=["Debugger", "DebuggerWide", "PyFns_Host", "PyFns_Debug"],
     modules=["WzVerif.Props.C20", "WzVerif.Props.C20T", "WzVerif.Props.C20T2"],
     streams=[HostStream(), PinStream(), SessionStream(), OverlapStream(), GateStream(), PinCookieStream(), PreludeKernels()],
     assumptions=[
